@@ -1243,8 +1243,8 @@ def dddmp_parser_model(P, R):
             n += 1
             lines = ['.ver DDDMP-2.0\n', '.nnodes 4\n', '.nodes\n',
                      f'1 {info[0]} 1 0 0\n',
-                     f'2 {info[1]} 4 1 -1\n',
-                     f'3 {info[2]} 2 1 2\n',
+                     f'2 {info[1]} 2 1 -1\n',
+                     f'3 {info[2]} 1 1 2\n',
                      (f'4 {info[3]} 0 -2 3\n' if then_complemented
                       else f'4 {info[3]} 0 2 -3\n'),
                      '.end\n']
@@ -1253,7 +1253,12 @@ def dddmp_parser_model(P, R):
             prm = [p for p in body.params if p != 'self']
             env = {'self': interp.Sym('self'),
                    'self.info2permid': dict(table), 'self.bdd': dict(),
-                   'self.n_nodes': 4, prm[0]: 'file.dddmp'}
+                   'self.n_nodes': 4, prm[0]: 'file.dddmp',
+                   'self.n_support_vars': 3, 'self.n_vars': 5,
+                   'self.n_roots': 2,
+                   'self.support_vars': [s_[0] for s_ in support],
+                   'self.var_ids': [s_[1] for s_ in support],
+                   'self.permuted_var_ids': [s_[2] for s_ in support]}
             what = f'node lines {[x.strip() for x in lines[3:-1]]}'
             try:
                 out, m = interp.run_function(body.node, env, stubs)
@@ -1285,6 +1290,31 @@ def dddmp_parser_model(P, R):
                         f'{what} (id info index THEN ELSE): the node '
                         f'table is {got}; (level, ELSE, THEN) gives '
                         f'{want}'))
+    # a file over one variable: the terminal row (`1 T 1 0 0` as CUDD
+    # writes it) and one node
+    n += 1
+    lines = ['.ver DDDMP-2.0\n', '.nnodes 2\n', '.nodes\n',
+             '1 T 1 0 0\n', '2 a 0 1 -1\n', '.end\n']
+    stubs = ClassStubs(P, 'dd.dddmp.Parser', extra={
+        'open': lambda m, c, a, k, lines=lines: iter(lines)})
+    prm = [p for p in body.params if p != 'self']
+    env = {'self': interp.Sym('self'),
+           'self.info2permid': {'a': 0, 'T': 1}, 'self.bdd': dict(),
+           'self.n_nodes': 2, prm[0]: 'file.dddmp',
+           'self.n_support_vars': 1, 'self.n_vars': 1, 'self.n_roots': 1,
+           'self.support_vars': ['a'], 'self.var_ids': [0],
+           'self.permuted_var_ids': [0]}
+    try:
+        out, m = interp.run_function(body.node, env, stubs)
+    except interp.Unknown as e:
+        R.undecided('R-ROLE', body.qualname, 'node-line model', str(e))
+        return
+    want = {1: (1, None, None), 2: (0, -1, 1)}
+    if out[0] == 'raise' or m.env.get('self.bdd') != want:
+        problems.setdefault('node-line', (
+            f'node lines {[x.strip() for x in lines[3:-1]]} of a file over '
+            f'one variable: {out[0]} {out[1]!r}, node table '
+            f'{m.env.get("self.bdd")}; (level, ELSE, THEN) gives {want}'))
     rules = {'swapped-edges': 'R-ROLE', 'node-line': 'R-ROLE',
              'complemented-then': 'R-ROLE'}
     for sub, msg in sorted(problems.items()):
